@@ -12,7 +12,16 @@ for c in m["checks"]:
     c["level_claimed"]["category"] = cfg["level"]
     c["level_claimed"]["text"] = cfg["explanation"]
     c["level_note"] = "; ".join(cfg["assumptions"]) or "no additional assumptions"
-    c["technique"] = ("Lean 4 theorems over a model regenerated from / tied to the source + differential correspondence (suites: "
-                      + ", ".join(cfg["suites"]) + ")")
+    pid = c["property_id"]
+    lean = os.path.join(ROOT, "lean", "SJ", "Properties")
+    ties = "_follows_source" in open(os.path.join(lean, pid + ".lean")).read() or "_follow_source" in open(os.path.join(lean, pid + ".lean")).read()
+    srcl = os.path.exists(os.path.join(lean, pid + "Source.lean"))
+    tech = "Lean 4 theorems (kernel-checked, axioms audited per theorem) over a model of the code"
+    if ties:
+        tech += "; source ties: the model's functions proved equal to the meaning, under the interpreter GoSem, of syntax trees regenerated from the Go source on every run"
+    if srcl:
+        tech += "; source-level theorems: the property stated about that meaning with no model function in the conclusion (Properties/" + pid + "Source.lean)"
+    tech += "; constants, tables, switch case lists and scalar assembly fragments regenerated from the source; differential correspondence of model and implementation (suites: " + ", ".join(cfg["suites"]) + ") with spec oracles, which also searches for a failing input when a tie or proof breaks"
+    c["technique"] = tech
 json.dump(m, open(p, "w"), indent=1, ensure_ascii=False)
 print("MANIFEST.json synced for", len(m["checks"]), "checks")
